@@ -113,7 +113,7 @@ def mes_table(ctx):
     return _emit(d)
 
 
-@rule("PRECOND-CHECK", ["C08", "C01"], floor=4)
+@rule("PRECOND-CHECK", ["C08", "C01", "C20"], floor=4)
 def precond_check(ctx):
     """check_preconditions: a precondition with a fixed position must match exactly there; one without must match at
     some position from max(start, min_position) to the end of input; any failure answers false, all satisfied true."""
